@@ -182,7 +182,7 @@ PROPS["C09"] = dict(
 )
 
 PROPS["C13"] = dict(
-    pkgs=[CAP, MDB, "poc/engine", SKC], level="exploration", death_is_violation=True, engine="rapid-harness+gate-scheduler",
+    pkgs=[CAP, MDB, "poc/engine", SKC, "poc/engine.v2"], level="exploration", death_is_violation=True, engine="rapid-harness+gate-scheduler",
     quick=dict(checks=640, shards=16, timeout=900),
     thorough=dict(checks=12000, shards=16, timeout=2400),
     technique="property-based generation of concurrent programs against the keeper (scripted plot backend, plotter gates H3) and against a held real massdb.v1 plot (H2); verdicts from 'everything released, still pending' plus goroutine stacks, recover in callers, process-death attribution",
